@@ -471,6 +471,31 @@ impl<M: AlignMarker> Ctx<M> {
                                 ctx.release_rc(rc);
                             }
                         }
+                        3 => {
+                            // a bulk iterator with shares left is dropped by the unwinding: they
+                            // are released like in any other drop
+                            let count = [2usize, 3, 5][b % 3];
+                            let (node, id, _rank) = ctx.new_node(Origin::NewIter(count as u32));
+                            crate::alloc::capture_begin(circ::verif::block_layout::<Node<M>>().0);
+                            let mut it = Rc::new_many_iter(node, count);
+                            if let Some(addr) = crate::alloc::capture_end() {
+                                if !shadow().objs[id as usize].registered {
+                                    ctx.register(id, addr, count as i64);
+                                }
+                                if let Some(rc) = it.next() {
+                                    match ctx.free_rc_slot() {
+                                        Some(s) => ctx.put_rc(s, rc),
+                                        None => ctx.release_rc(rc),
+                                    }
+                                }
+                                shadow().release_strong(id, count as i64 - 1);
+                                g.flush();
+                                crate::sched::inner_yield();
+                                sim().fault("panic_with_bulk_iterator");
+                                let _keep = it;
+                                std::panic::resume_unwind(Box::new(InjectedPanic));
+                            }
+                        }
                         _ => {}
                     }
                     g.flush();
@@ -1287,6 +1312,18 @@ impl<M: AlignMarker> Ctx<M> {
                 if self.guard_ref(a).is_some() {
                     self.exec(Op { k: K::Flush, ..o });
                     self.exec(Op { k: K::Reactivate, ..o });
+                }
+            }
+            K::CheckDeferred => {
+                // bounded liveness: the template has arranged that at least `a` deferred functions
+                // sit in expired bags and that enough collection rounds have been made since
+                let ran = shadow().n_closures_run;
+                sim().probe("check_deferred");
+                if ran < o.a as u64 {
+                    let det = format!("only {} of the {} deferred functions that expired before a participant got stuck had run after the agreed number of pin/flush/unpin rounds of another thread", ran, o.a);
+                    // from a thread-local destructor after the handle is gone this is also C20
+                    // ("running collections work from any point of a thread's life")
+                    shadow().soft(if self.in_tls { "C15,C20" } else { "C15" }, "expired-deferred-not-run", det);
                 }
             }
             K::QPush | K::QPop | K::QPopIf | K::LIns | K::LDel | K::LTrav => {}
